@@ -86,7 +86,7 @@ _kf = json.load(open(os.path.join(ROOT, "known_findings.json")))
 def _suffix(pid):
     n_known = len([f for f in _kf["findings"] if f["property"] == pid])
     n_fixed = len([f for f in _kf["fixed"] if f"property={pid} " in f])
-    n_seeded = len([d for d in os.listdir(os.path.join(ROOT, "seeded")) if d.split("-")[0].rstrip("bcdefg") == pid])
+    n_seeded = len([d for d in os.listdir(os.path.join(ROOT, "seeded")) if d.split("-")[0].rstrip("bcdefghij") == pid])
     return (f" Units labelled bounded, the native stand-ins and the scenario corpus (recorded scenarios and scenario oracles replayed natively on every run) are bounded checks and are not counted as proved."
             f" On the current tree: {n_known} recorded known finding(s) (printed as KNOWN-FINDING, see known_findings.json), {n_fixed} defect(s) of this property repaired in /repo;"
             f" {n_seeded} independently seeded property-breaking change(s) are all reported (canaries in the thorough tier).")
@@ -122,7 +122,7 @@ m = {
     "engines": [{"name": "pvc", "path": "pvc/", "serves_properties": sorted(CLAIMED), "kind_free_text": "modular symbolic executor for a Python subset generating verification conditions from the real ptera source, discharged with z3 / cvc5"}],
     "checks": checks,
     "not_applicable": na,
-    "notes": "See DESIGN.md. known_findings.json lists genuine defects recorded or fixed (59 unguarded fix: commits in /repo). BACKLOG.md lists agent-reported observations and their status.",
+    "notes": "See DESIGN.md. known_findings.json lists genuine defects recorded or fixed (62 unguarded fix: commits in /repo). BACKLOG.md lists agent-reported observations and their status.",
 }
 json.dump(m, open(os.path.join(ROOT, "MANIFEST.json"), "w"), indent=1)
 print("claimed", sorted(CLAIMED), "not claimed", [x["property_id"] for x in na])
